@@ -19,6 +19,10 @@ import z3
 CVC5 = shutil.which("cvc5")
 Z3BIN = shutil.which("z3-new") or shutil.which("z3")
 
+# first z3py attempt on floating-point queries (ms).  Measured: 3000 keeps the actuator steps of C04 inside their
+# budgets when 16 workers run at once (each external race costs two more processes); 400-600 is better only for
+# obligations dominated by the constant-divisor kernels, which now avoid most FP queries by construction.
+FP_FIRST_MS = int(os.environ.get("VERIF_FP_FIRST_MS", "3000"))
 STATS = {"z3py": 0, "cvc5": 0, "z3bin": 0, "unknown": 0, "ext_s": 0.0}
 
 
@@ -159,11 +163,16 @@ def solve_sliced(base: List, extra: List, *, timeout_ms=20000, first_ms=None, mo
 
 def solve(assertions: List, *, timeout_ms=20000, first_ms=None, model_vars: Optional[List] = None,
           external=True) -> Tuple[str, Optional[Dict]]:
-    """Return (status, model) where model maps str(var) -> python value for model_vars (if sat)."""
-    # floating-point queries: cvc5 decides the kernels that occur here (division/multiplication by constants, rounding
-    # to integral) in under a second where z3 needs 2-9 s, so z3py only gets a short first attempt on those
-    fp = external and CVC5 and any(has_fp(a) for a in assertions)
-    first = first_ms if first_ms is not None else min(timeout_ms, (600 if fp else 3000) if external and CVC5 else timeout_ms)
+    """Return (status, model) where model maps str(var) -> python value for model_vars (if sat).
+
+    Floating-point queries: a z3py attempt of FP_FIRST_MS settles the easy ones; then a cvc5 process and a z3 5.1 CLI process
+    are raced on the SMT-LIB text of the same assertions: cvc5 decides the kernels that occur here (division/
+    multiplication by constants, rounding to integral, symbolic divisors) in a fraction of z3's time, z3 wins others
+    (the servo linear map).  Whoever answers sat/unsat first is taken; a model is validated against the assertions.
+    Other queries: z3py (3 s), then the external back ends.  (An in-process race - z3py in a worker thread,
+    interrupted when cvc5 answers first - dead-locked the forked workers and was dropped.)"""
+    fp = external and CVC5 and first_ms is None and any(has_fp(a) for a in assertions)
+    first = first_ms if first_ms is not None else min(timeout_ms, (FP_FIRST_MS if fp else 3000) if external and CVC5 else timeout_ms)
     s = z3.Solver()
     s.set("timeout", int(first))
     for a in assertions:
@@ -186,6 +195,20 @@ def solve(assertions: List, *, timeout_ms=20000, first_ms=None, model_vars: Opti
     if res[0] == "unknown":
         STATS["unknown"] += 1
     return res
+
+
+def _smt2_text(assertions, model_vars):
+    fresh = z3.Solver()
+    for a in assertions:
+        fresh.add(a)
+    text = fresh.to_smt2()
+    names = [str(v) for v in model_vars]
+    if names:
+        text += "(get-value (" + " ".join(_quote(n) for n in names) + "))\n"
+    for a, b in (("bvsdiv_i", "bvsdiv"), ("bvudiv_i", "bvudiv"), ("bvsrem_i", "bvsrem"), ("bvurem_i", "bvurem"),
+                 ("bvsmod_i", "bvsmod")):
+        text = text.replace(a, b)
+    return "(set-option :produce-models true)\n(set-logic ALL)\n" + text
 
 
 def _external(s: z3.Solver, assertions, budget_ms, model_vars):
